@@ -446,6 +446,18 @@ func getReference(v cue.Value) (bool, cue.Value, cue.Value) {
 func (g *generator) declareReference(v cue.Value, defV cue.Value) (ast.Type, error) {
 	referenceRootValue, path := v.ReferencePath()
 
+	// only regular fields and definitions can be named (see selectorLabel):
+	// a reference to a hidden field, a hidden definition or a comprehension
+	// variable is reported instead of panicking in the naming function.
+	for _, sel := range path.Selectors() {
+		if sel.Type().ConstraintType() == cue.PatternConstraint {
+			continue
+		}
+		if labelType := sel.LabelType(); labelType != cue.StringLabel && labelType != cue.DefinitionLabel {
+			return ast.Type{}, errorWithCueRef(v, "unsupported reference to a hidden field or a local variable: %s", path.String())
+		}
+	}
+
 	// The reference might point to a value defined "outside" of the original root cue value, but still in the same
 	// schema/cue file.
 	// Ex:
